@@ -316,7 +316,7 @@ REST_MACROS = {
 # docutils-active body text (VERIF_RISKY=1): literal-block markers, underline-like lines, list / markup starts, indentation
 REST_RISKY = dict(REST_MACROS)
 REST_RISKY["<paragraph_chars>"] = ["x", " y", "\n==", ":: ", "\n1. z", "\n\n  k", "\\"]
-REST_RISKY["<nobr-string>"] = ["i", "jj", "::", " "]
+REST_RISKY["<nobr-string>"] = ["i", "jj", "::", " ", "*i"]
 REST_RISKY["<paragraph_chars_nospace>"] = ["p", "q", "-", "1.", ".."]
 ADQ_RISKY = {"rest": REST_RISKY}
 ADQ = {
@@ -341,6 +341,8 @@ FEATURES = {
     "rest-literal-block-marker": lambda s, t: "::" in s,
     "rest-text-line-above-underline-like-line": lambda s, t: any(re.search(r"\n[=-]+(\n|$)", p) for p in _paragraphs(t)),
     "rest-paragraph-starts-like-list-or-markup": lambda s, t: any(_LISTLIKE.match(p) for p in _paragraphs(t)),
+    # '*' is excluded from paragraph text but not from titles and list items (<nobr-char>)
+    "rest-inline-markup-start-character": lambda s, t: "*" in s,
     "rest-indented-continuation-line": lambda s, t: any("\n " in p for p in _paragraphs(t)),
 }
 ONLY_FEATURE = os.environ.get("VERIF_ONLY_FEATURE", "")
